@@ -26,7 +26,10 @@ for pid, tiers in sorted(runs.items()):
     hashes = {}
     for cl, h in union:
         hashes.setdefault(cl, []).append(h)
-    out = {"property": pid, "exact": exact, "tiers": {t: [s for s, _ in rs] for t, rs in tiers.items()}, "notes": notes,
+    # a tier is only attributed exactly when it was measured at least twice with identical failing sets; a tier measured once
+    # keeps the stratum-wide findings (a false alarm on the unchanged tree is worse than a wider finding)
+    out = {"property": pid, "exact": exact, "tiers": {t: [s for s, _ in rs] for t, rs in tiers.items() if len(rs) >= 2},
+           "tiers_measured_once": sorted(t for t, rs in tiers.items() if len(rs) < 2), "notes": notes,
            "hashes": {cl: sorted(v) for cl, v in sorted(hashes.items())}}
     json.dump(out, open(os.path.join(HERE, "baseline", pid + ".json"), "w"))
     print(pid, "exact" if exact else "NOT exact", {t: [len(s) for _, s in rs] for t, rs in tiers.items()}, notes)
